@@ -211,7 +211,14 @@ def run(out: Outcome) -> None:
             ok = (v, d) == val
         elif kind == "kuiperp":
             ms, mp = (h2f(t[1:]) for t in g.split(" "))
-            ok = close(ms, val[0], 1e-12) and ((math.isnan(mp) and math.isnan(val[1])) or (math.isinf(mp) and mp == val[1]) or close(mp, val[1], 1e-7))
+            # the p-value series is discontinuous in D where D*N crosses 1 (sign of the base D - 1/N: NaN on one side), 2 and 3 (branch changes): a
+            # statistic that sits on such a boundary up to rounding (e.g. D = 3/8 with N = 8/3) is a tie - only the statistic is compared there
+            nn, mm = len(rep["ref"]), len(rep["test"])
+            ne = nn * mm / (nn + mm)
+            on_boundary = min(abs(val[0] * ne - k) for k in (1, 2, 3)) < 1e-9
+            if on_boundary:
+                out.count("kuiper_branch_boundary_ties_skipped")
+            ok = close(ms, val[0], 1e-12) and (on_boundary or (math.isnan(mp) and math.isnan(val[1])) or (math.isinf(mp) and mp == val[1]) or close(mp, val[1], 1e-7))
         elif kind == "chi2":
             ok = close(h2f(g[1:]), val, 1e-9)
         elif kind == "fwd":
